@@ -120,8 +120,10 @@ CN("Cazacu2004Isotropic", c_cazacu2004, 1)
 CN("Cazacu2004Isotropic", c_cazacu2004, 2)
 #ifdef VERIF_THOROUGH
 CN("Cazacu2001", c_cazacu2001, 2)
+CN("Cazacu2004Isotropic", c_cazacu2004, 3)
+#endif
+#ifdef VERIF_EXPERIMENTAL  /* Drucker 1949 in 3D: 36 second-derivative entries of degree-12 rational functions; not finished in 30 minutes on 6 workers */
 CN("Drucker1949", c_drucker, 3)
 CN("Drucker1949/homogeneity", c_drucker_homogeneity, 3)
-CN("Cazacu2004Isotropic", c_cazacu2004, 3)
 #endif
 int main(int argc, char** argv) { return vsym::driver_main(argc, argv); }
